@@ -12,7 +12,7 @@ CUR=$(mktemp /tmp/benign-cur.XXXXXX)
 for n in $names; do
   case "$n" in
     agent/*)
-      cp "benign/$n.diff" "$CUR" ;;
+      cp "benign/$n.diff" "$CUR" || { echo "$n: no such patch"; bad=1; continue; } ;;
     *)
       git -C "$WT" checkout -q --detach "$(git -C /repo rev-parse HEAD)" 2>/dev/null; git -C "$WT" checkout -q -- .
       python3 "benign/$n.py" "$WT" || { echo "$n: edit script failed"; bad=1; continue; }
